@@ -2,6 +2,7 @@ package bt
 
 import (
 	"bytes"
+	"encoding/json"
 	"context"
 	"encoding/binary"
 	"fmt"
@@ -759,6 +760,7 @@ func famOrders(obs *Obs, table []byte) []FamOrder {
 func (s *Server) Run(tr int, prog []Op) []Op {
 	out := []Op{{Ev: "Reset", Tr: tr}}
 	s.Observe()
+	var prevObs []byte
 	for i := range prog {
 		op := prog[i]
 		op.Tr, op.I = tr, i+1
@@ -779,6 +781,19 @@ func (s *Server) Run(tr int, prog []Op) []Op {
 		}
 		s.Exec(&op)
 		op.Obs = s.Observe()
+		// identical to the previous read-back, key samples (random) aside?
+		noSamp := *op.Obs
+		noSamp.Tables = append([]ObsTable(nil), op.Obs.Tables...)
+		var samps []ObsSamp
+		for i := range noSamp.Tables {
+			samps = append(samps, ObsSamp{T: noSamp.Tables[i].T, Samp: noSamp.Tables[i].Samp})
+			noSamp.Tables[i].Samp = nil
+		}
+		cur, _ := json.Marshal(noSamp)
+		if prevObs != nil && bytes.Equal(cur, prevObs) {
+			op.Obs = &Obs{Same: true, Samps: samps}
+		}
+		prevObs = cur
 		out = append(out, op)
 	}
 	return out
